@@ -417,6 +417,9 @@ pub extern "C" fn circuit_add_conditional_gate(ptr: *mut Circuit,
             let res = match gate_name.to_lowercase().as_str()
             {
                 "ch"   => { circuit.add_conditional_gate(control, target, CH::new(), qbits) },
+                "crx"  => { add_parametrized_gate!(1, circuit, control, target, CRX, qbits, params) },
+                "cry"  => { add_parametrized_gate!(1, circuit, control, target, CRY, qbits, params) },
+                "crz"  => { add_parametrized_gate!(1, circuit, control, target, CRZ, qbits, params) },
                 "cx"   => { circuit.add_conditional_gate(control, target, CX::new(), qbits) },
                 "cy"   => { circuit.add_conditional_gate(control, target, CY::new(), qbits) },
                 "cz"   => { circuit.add_conditional_gate(control, target, CZ::new(), qbits) },
